@@ -152,11 +152,17 @@ class C02Partition(Monitor):
         if ro > applied + pre.pond + tol:
             ctx.violate("runoff-upper-bound", pre.t, observed=ro, expected={"le": applied + pre.pond})
         fm = field_in_force(ctx, post.gs)
-        removal = pre.pond > 0 and not bunds_on(fm)
+        # "the day bunds are removed": the management struct in force today has no bunds, or bunds lower than
+        # the water ponded at the start of the day (bunds lowered between season and fallow): the water above
+        # the new height is released as runoff, which is the only way reported infiltration may be negative
+        zb = float(fm.z_bund) if bunds_on(fm) else 0.0
+        removal = pre.pond > zb
         if removal:
             ctx.hit("bund_removal_day")
             if infl < -pre.pond - tol:
                 ctx.violate("infl-bund-removal-bound", pre.t, observed=infl, expected={"ge": -pre.pond})
+            if infl < -(pre.pond - zb) - tol:
+                ctx.violate("infl-bund-lowering-bound", pre.t, observed=infl, expected={"ge": -(pre.pond - zb)})
         elif infl < -REL:
             ctx.violate("infl-nonnegative", pre.t, observed=infl, expected=">=0 (no bund removal today)", pond_before=pre.pond)
         if P == 0 and irr == 0 and pre.pond == 0:
@@ -222,8 +228,8 @@ class C03Bounds(Monitor):
             ctx.hit("below_wilting_point")
         if pond > 0:
             ctx.hit("ponded_state")
-        if fm is not None and bunds_on(fm) and pond >= float(fm.z_bund) - 1e-9:
-            ctx.hit("pond_at_bund_height")
+        if fm is not None and bunds_on(fm) and pond >= 0.5 * float(fm.z_bund):
+            ctx.hit("pond_above_half_bund_height")
 
     def on_transition(self, ctx, pre, post):
         fm = field_in_force(ctx, post.gs)
